@@ -164,6 +164,15 @@ theorem pinned_stw_witness :
   · intro c' hr
     exact doCollection_stw h0 hz hd hr
 
+/-- **The counting invariant holds in every state of every history** (`Acc`,
+    Proofs/Accounting.lean: the work counters `marked`, `traced`, `remembered`, `dropped`, `freed`
+    never run ahead of the colours on the `all` list — asleep all zero; marking:
+    `marked ≤ #non-white`, `traced ≤ #black`; sweeping: split by what was done to black,
+    weakly-marked and white objects).  Re-export of `acc_run`, on which every theorem of this
+    section rests. -/
+theorem counting_invariant_run (n : Nat) (ops : List Op) : Acc ((Arena.new n).run ops).ctx :=
+  acc_run n ops
+
 /-! ### The ρ-bound -/
 
 /-- In every state of every history, outside callbacks: the credits of the running cycle are at
@@ -243,8 +252,9 @@ theorem cycles_complete (n : Nat) (ops : List Op) (ρ : Rat) (Aw H A' : Nat) (fa
 
 /-- **ρ-bound over a history** — the split is not free here, it is read off the history.
     `pre` leads to a sleeping state `a0` with positive debt, outside callbacks; `wakeOp` is a
-    self-driven debt-driven collection call (`collect_debt`, `mark_debt`, `cycle_debt`) executed
-    there, so it wakes the collector (first conclusion: the oldest step it appends is `'W'`);
+    self-driven collection call of **any** method executed there — a debt-driven one wakes the
+    collector because of the debt, `finish_marking` / `finish_cycle` anyway (first conclusion: the
+    oldest step it appends is `'W'`);
     `post` is **any** further operation sequence — mutator operations, collection calls of every
     kind, self-driven or replayed, `finalize` / `start_sweeping` included — that changes no pacing
     and makes no negative `adjust_debt` (`Op.keepsCycle`), and during `wakeOp`-and-`post` no cycle
@@ -266,7 +276,6 @@ theorem cycles_complete (n : Nat) (ops : List Op) (ρ : Rat) (Aw H A' : Nat) (fa
 theorem rho_bound_run (n : Nat) (pre post : List Op) (m : Method) (k : Cont) (wfault : TraceFault)
     (a0 a2 : Arena) (ha0 : a0 = (Arena.new n).run pre)
     (ha2 : a2 = (Arena.new n).run (pre ++ .collect m k wfault none :: post))
-    (hm : (Arena.methodArgs m).1 = .payDebt)
     (hcb0 : a0.cb = none) (hs : a0.ctx.phase = .sleep) (hd : 0 < a0.ctx.metrics.allocationDebt)
     (hpost : ∀ op, op ∈ post → op.keepsCycle = true)
     (hal : a2.alive = true) (hcb : a2.cb = none)
@@ -295,17 +304,16 @@ theorem rho_bound_run (n : Nat) (pre post : List Op) (m : Method) (k : Cont) (wf
     · exact hpost op hop
   rw [hrun] at hal hcb hsteps hr ⊢
   obtain ⟨r1, r2⟩ := rho_bound_from_sleep h0 hacc0 hs hd _ hk hal hcb new hsteps hz hp hr hns hne
-  exact ⟨collect_wakes h0 hcb0 hs hd m hm k wfault, r1, r2⟩
+  exact ⟨collect_wakes h0 hcb0 hs hd m k wfault, r1, r2⟩
 
 /-- The hypotheses of `rho_bound_run`, bundled: `pre` leads to a sleeping state `a0` with positive
-    debt outside callbacks; the self-driven debt-driven call `.collect m k wfault none` wakes it;
+    debt outside callbacks; the self-driven call `.collect m k wfault none` (any method) wakes it;
     `post` keeps the cycle (no `set_pacing`, no negative `adjust_debt`); over wake-and-`post` no
     `'Z'` is appended (`new`); the final `cycle_debt` call returns normally in `c'`. -/
 structure CycleHistory (n : Nat) (pre post : List Op) (m : Method) (k : Cont) (wfault : TraceFault)
     (a0 a2 : Arena) (new : List Char) (fault : TraceFault) (c' : Ctx) : Prop where
   ha0 : a0 = (Arena.new n).run pre
   ha2 : a2 = (Arena.new n).run (pre ++ .collect m k wfault none :: post)
-  hm : (Arena.methodArgs m).1 = .payDebt
   hcb0 : a0.cb = none
   hs : a0.ctx.phase = .sleep
   hd : 0 < a0.ctx.metrics.allocationDebt
@@ -365,7 +373,7 @@ theorem rho_bound_run_selfdriven {n pre post m k wfault a0 a2 new fault c'}
   obtain ⟨hrun, h0, hacc0, _⟩ := history_core H
   have hal := H.hal; have hcb := H.hcb; have hsteps := H.hsteps; have hr := H.hr
   rw [hrun] at hal hcb hsteps hr
-  have hne := selfdriven_nonempty h0 hacc0 H.hcb0 H.hs H.hd m H.hm k wfault post
+  have hne := selfdriven_nonempty h0 hacc0 H.hcb0 H.hs H.hd m k wfault post
     (fun op hop => ⟨hself op hop, H.hpost op hop⟩) hal hcb new hsteps H.hz hr hns
   exact (history_facts H hp hns).2.2 hne
 
@@ -603,7 +611,7 @@ private theorem rhoRun_metrics :
 example : ∃ (new : List Char) (c' : Ctx),
     let a0 := (Arena.new 1).run rhoPre
     let a2 := (Arena.new 1).run (rhoPre ++ .collect .markDebt .drop none none :: rhoPost)
-    (Arena.methodArgs .markDebt).1 = .payDebt ∧ a0.cb = none ∧ a0.ctx.phase = .sleep ∧
+    a0.cb = none ∧ a0.ctx.phase = .sleep ∧
     0 < a0.ctx.metrics.allocationDebt ∧ (∀ op, op ∈ rhoPost → op.keepsCycle = true) ∧
     a2.alive = true ∧ a2.cb = none ∧ a2.ctx.steps = new ++ a0.ctx.steps ∧ 'Z' ∉ new ∧
     RhoPacing a0.ctx.metrics.pacing (1/2) ∧
@@ -624,7 +632,7 @@ example : ∃ (new : List Char) (c' : Ctx),
     decide
   refine ⟨['x', 'x', 'x', 'x', 'S', 'b', 'r', 'W'],
     ((Arena.new 1).run (rhoPre ++ .collect .markDebt .drop none none :: rhoPost)).ctx, ?_⟩
-  refine ⟨rfl, by decide, by decide, rhoPre_debt, by decide, ?_, ?_, ?_, by decide, ?_, ?_, ?_, ?_,
+  refine ⟨by decide, by decide, rhoPre_debt, by decide, ?_, ?_, ?_, by decide, ?_, ?_, ?_, ?_,
     by decide, hallocs⟩
   · rw [rhoRun_eq]; decide
   · rw [rhoRun_eq]; decide
@@ -633,6 +641,122 @@ example : ∃ (new : List Char) (c' : Ctx),
   · simp [Ctx.doCollection, hnd]
   · rw [rhoRun_eq]; decide
   · rw [rhoRun_eq]; decide
+
+/-! A history that is self-driven throughout: `rhoPre`, the self-driven `mark_debt`, one more
+    allocation, and a self-driven final `cycle_debt` that marks nothing more, sweeps four of the
+    five allocations away and returns Sweeping with the debt paid (`H = 4`, `A' = 1`).  Its debt
+    tests are discharged one by one (`Proofs/SelfDriven.lean`). -/
+
+def selfPost : List Op := [ .enter .mutate, .alloc true [none], .leave ]
+
+/-- The state before the final call (with the waking call already shown equal to its replay). -/
+private def selfCtx : Ctx :=
+  ((Arena.new 1).run (rhoPre ++ .collect .markDebt .drop none
+    (some [.wake, .markStep none, .markBreak]) :: selfPost)).ctx
+
+private def selfRoot : List Slot :=
+  ((Arena.new 1).run (rhoPre ++ .collect .markDebt .drop none
+    (some [.wake, .markStep none, .markBreak]) :: selfPost)).root
+
+/-- Where the final `cycle_debt` ends: `b S x x x x`. -/
+private def selfEnd : Ctx :=
+  (selfCtx.step 'b').enterSweep.sweepOne.1.sweepOne.1.sweepOne.1.sweepOne.1
+
+private theorem selfRun_eq :
+    (Arena.new 1).run (rhoPre ++ .collect .markDebt .drop none none :: selfPost) =
+    (Arena.new 1).run (rhoPre ++ .collect .markDebt .drop none
+      (some [.wake, .markStep none, .markBreak]) :: selfPost) := by
+  rw [run_append, run_append]
+  simp only [Arena.run]
+  rw [rhoWake_eq]
+
+private theorem self_metrics (k : Nat) (c : Ctx)
+    (h : c.metrics =
+      ({ pacing := halfPacing, totalGcs := 5 - k, wakeup := 0, artificial := 0 + (-3),
+         allocated := 5, dropped := k, freed := k, marked := 0, traced := 0, remembered := 0,
+         underflow := false } : Metrics)) (hk : k ≤ 4) :
+    c.metrics.hasDebt = decide (k < 4) := by
+  rw [h]
+  have h5 : 5 - k ≠ 0 := by omega
+  have hk' : (k : Rat) ≤ 4 := by exact_mod_cast hk
+  by_cases h4 : k < 4
+  · have : (k : Rat) ≤ 3 := by exact_mod_cast (show k ≤ 3 by omega)
+    simp only [Metrics.hasDebt, h4, decide_true, decide_eq_true_eq]
+    unfold Metrics.allocationDebt Metrics.cycleDebits Metrics.cycleCredits halfPacing
+    simp only [h5, if_false]
+    split <;> grind
+  · have hk4 : k = 4 := by omega
+    subst hk4
+    simp only [Metrics.hasDebt, decide_eq_false_iff_not, Nat.lt_irrefl, decide_false]
+    unfold Metrics.allocationDebt Metrics.cycleDebits Metrics.cycleCredits halfPacing
+    simp only
+    grind
+
+private theorem self_call :
+    selfCtx.doCollection selfRoot .payDebt .finishCycle none = (selfEnd, .returned) := by
+  have n1 : ¬ (Stop.finishCycle ≤ Stop.fullyMarked) := by decide
+  have n2 : ¬ (Stop.finishCycle ≤ Stop.atSweep) := by decide
+  have d0 : selfCtx.metrics.hasDebt = true := by
+    rw [self_metrics 0 selfCtx rfl (by omega)]; rfl
+  rw [doCollection_loop d0]
+  rw [show 2 * selfCtx.fuelBound selfRoot + 8 = (2 * selfCtx.fuelBound selfRoot + 3) + 1 + 1 + 1 + 1 + 1
+    from by omega]
+  rw [collectLoop_toSweep (by decide) (by decide) n1
+    (by rw [self_metrics 0 _ rfl (by omega)]; rfl)]
+  rw [collectLoop_sweep_on (by decide) (by decide) n2
+    (by rw [self_metrics 1 _ rfl (by omega)]; rfl)]
+  rw [collectLoop_sweep_on (by decide) (by decide) n2
+    (by rw [self_metrics 2 _ rfl (by omega)]; rfl)]
+  rw [collectLoop_sweep_on (by decide) (by decide) n2
+    (by rw [self_metrics 3 _ rfl (by omega)]; rfl)]
+  exact collectLoop_sweep_paid (by decide) (by decide) n2
+    (by rw [self_metrics 4 _ rfl (by omega)]; rfl) (by decide)
+
+/-- The self-driven history satisfies `CycleHistory`. -/
+private theorem selfHistory :
+    CycleHistory 1 rhoPre selfPost .markDebt .drop none ((Arena.new 1).run rhoPre)
+      ((Arena.new 1).run (rhoPre ++ .collect .markDebt .drop none none :: selfPost))
+      ['b', 'r', 'W'] none selfEnd := by
+  refine ⟨rfl, rfl, by decide, by decide, rhoPre_debt, by decide, ?_, ?_, ?_, by decide, ?_⟩
+  · rw [selfRun_eq]; decide
+  · rw [selfRun_eq]; decide
+  · rw [selfRun_eq]; decide
+  · rw [selfRun_eq]; exact self_call
+
+private theorem self_allocs :
+    allocsIn ((Arena.new 1).run rhoPre) (.collect .markDebt .drop none none :: selfPost) = 1 := by
+  show (if ((Arena.new 1).run rhoPre).allocates (.collect .markDebt .drop none none) then 1 else 0)
+    + allocsIn (((Arena.new 1).run rhoPre).step (.collect .markDebt .drop none none)).1 selfPost = 1
+  rw [rhoWake_eq]
+  decide
+
+private theorem rhoPre_half : RhoPacing ((Arena.new 1).run rhoPre).ctx.metrics.pacing (1/2) := by
+  rw [rhoPre_metrics]; constructor <;> (unfold halfPacing; simp only; grind)
+
+/-- Non-vacuity of `rho_bound_run_selfdriven`: every hypothesis holds on the self-driven history
+    (no replayed call anywhere), the final call ends Sweeping with one allocation left; `H = 4`,
+    `A' = 1`, `ρ = 1/2`. -/
+example :
+    CycleHistory 1 rhoPre selfPost .markDebt .drop none ((Arena.new 1).run rhoPre)
+      ((Arena.new 1).run (rhoPre ++ .collect .markDebt .drop none none :: selfPost))
+      ['b', 'r', 'W'] none selfEnd ∧
+    (∀ op, op ∈ selfPost → op.selfDriven = true) ∧
+    RhoPacing ((Arena.new 1).run rhoPre).ctx.metrics.pacing (1/2) ∧
+    selfEnd.phase = .sweep ∧ selfEnd.metrics.totalGcs = 1 ∧
+    ((Arena.new 1).run rhoPre).ctx.metrics.totalGcs = 4 ∧
+    allocsIn ((Arena.new 1).run rhoPre) (.collect .markDebt .drop none none :: selfPost) = 1 :=
+  ⟨selfHistory, by decide, rhoPre_half, by decide, by decide, by decide, self_allocs⟩
+
+/-- … and its instance: `1 · (1 - 1/2) < 1/2 · 4`. -/
+example :
+    ((allocsIn ((Arena.new 1).run rhoPre) (.collect .markDebt .drop none none :: selfPost) : Nat) : Rat)
+      * (1 - 1/2) < 1/2 * (((Arena.new 1).run rhoPre).ctx.metrics.totalGcs : Rat) :=
+  rho_bound_run_selfdriven selfHistory (by decide) (1/2) rhoPre_half (by decide)
+
+/-- Non-vacuity of `heap_factor_run` on the same history: `1 < 4 / (1 - 1/2)`. -/
+example : (selfEnd.metrics.totalGcs : Rat)
+    < (((Arena.new 1).run rhoPre).ctx.metrics.totalGcs : Rat) / (1 - 1/2) :=
+  heap_factor_run selfHistory (1/2) rhoPre_half (by grind) (by decide)
 
 /-! The corner that makes `total_gcs ≠ 0` necessary for arbitrary `post`: one allocation held at
     wake-up (`H = 1`), two more made while marking (`A' = 2`), and a **replayed** sweep cut right
@@ -674,6 +798,45 @@ private theorem litRun_eq :
   simp only [Arena.run]
   rw [litWake_eq]
 
+private theorem litSelfRun_eq :
+    (Arena.new 1).run (litPre ++ .collect .markDebt .drop none none :: selfPost) =
+    (Arena.new 1).run (litPre ++ .collect .markDebt .drop none
+      (some [.wake, .markStep none, .markBreak]) :: selfPost) := by
+  rw [run_append, run_append]
+  simp only [Arena.run]
+  rw [litWake_eq]
+
+/-- Non-vacuity of `cycles_complete_run_selfdriven` (and `cycles_complete_run`): on the
+    self-driven history `litPre`, `mark_debt`, one more allocation (`H = 1`, `A' = 1`, `ρ = 1/2`,
+    so `ρ H ≤ A' (1 - ρ)`), every hypothesis holds for the state `c'` in which the self-driven
+    final `cycle_debt` returns — hence it returns Sleeping. -/
+example : ∃ c',
+    CycleHistory 1 litPre selfPost .markDebt .drop none ((Arena.new 1).run litPre)
+      ((Arena.new 1).run (litPre ++ .collect .markDebt .drop none none :: selfPost))
+      ['b', 'r', 'W'] none c' ∧
+    (∀ op, op ∈ selfPost → op.selfDriven = true) ∧
+    RhoPacing ((Arena.new 1).run litPre).ctx.metrics.pacing (1/2) ∧
+    (1/2 : Rat) * (((Arena.new 1).run litPre).ctx.metrics.totalGcs : Rat)
+      ≤ ((allocsIn ((Arena.new 1).run litPre) (.collect .markDebt .drop none none :: selfPost) : Nat) : Rat)
+          * (1 - 1/2) := by
+  have hallocs : allocsIn ((Arena.new 1).run litPre) (.collect .markDebt .drop none none :: selfPost) = 1 := by
+    show (if ((Arena.new 1).run litPre).allocates (.collect .markDebt .drop none none) then 1 else 0)
+      + allocsIn (((Arena.new 1).run litPre).step (.collect .markDebt .drop none none)).1 selfPost = 1
+    rw [litWake_eq]
+    decide
+  have hc2 := run_cinv 1 (litPre ++ .collect .markDebt .drop none none :: selfPost)
+    (by rw [litSelfRun_eq]; decide) (by rw [litSelfRun_eq]; decide)
+  refine ⟨_, ⟨rfl, rfl, by decide, by decide, litPre_debt, by decide, ?_, ?_, ?_, by decide,
+    Prod.ext rfl (doCollection_returns hc2 .payDebt .finishCycle)⟩, by decide, ?_, ?_⟩
+  · rw [litSelfRun_eq]; decide
+  · rw [litSelfRun_eq]; decide
+  · rw [litSelfRun_eq]; decide
+  · rw [litPre_metrics]; constructor <;> (unfold halfPacing; simp only; grind)
+  · rw [hallocs, litPre_metrics]
+    have e1 : ((1 : Nat) : Rat) = 1 := rfl
+    simp only [e1]
+    grind
+
 /-- The literal clause is false: on `litPre ++ [mark_debt] ++ litPost` every hypothesis holds with
     `ρ = 1/2`, the final `cycle_debt` returns Sweeping with the arena emptied, and
     `A' (1 - ρ) = 1` is not below `ρ H = 1/2`. -/
@@ -688,7 +851,7 @@ theorem rho_bound_run_literal_false : ¬ rho_bound_run_literal := by
       ((Arena.new 1).run (litPre ++ .collect .markDebt .drop none none :: litPost))
       ['x', 'x', 'x', 'S', 'b', 'r', 'W'] none
       ((Arena.new 1).run (litPre ++ .collect .markDebt .drop none none :: litPost)).ctx := by
-    refine ⟨rfl, rfl, rfl, by decide, by decide, litPre_debt, by decide, ?_, ?_, ?_, by decide, ?_⟩
+    refine ⟨rfl, rfl, by decide, by decide, litPre_debt, by decide, ?_, ?_, ?_, by decide, ?_⟩
     · rw [litRun_eq]; decide
     · rw [litRun_eq]; decide
     · rw [litRun_eq]; decide
